@@ -526,11 +526,16 @@ func check(id, tier string) int {
 			case err = <-done:
 			case <-time.After(budget + 90*time.Second):
 				cmd.Process.Kill()
+				if f := diedMinimising(filepath.Join(sc.dir, fmt.Sprintf("progress.%d", i)), j.race); f != nil {
+					crashes[i] = f
+					results[i] = workerResult{Counts: map[string]int64{}}
+					return
+				}
 				// a single run that never returns: either the code under test spins
 				// without reaching any synchronisation operation, or the harness is
 				// broken. Re-execute the run in flight from its seed, alone, with a
 				// generous limit: if it hangs again it is reported as what it is.
-				if pb, perr := os.ReadFile(filepath.Join(sc.dir, fmt.Sprintf("progress.%d", i))); perr == nil && len(pb) == 8 {
+				if pb, perr := os.ReadFile(filepath.Join(sc.dir, fmt.Sprintf("progress.%d", i))); perr == nil && len(pb) >= 8 {
 					var run int64
 					for k := 0; k < 8; k++ {
 						run |= int64(pb[k]) << (8 * k)
@@ -552,8 +557,14 @@ func check(id, tier string) int {
 				// the process died. If the Go runtime killed it inside the code under test
 				// (stack overflow, concurrent map access, ...) that is what the property
 				// forbids, not trouble of ours: attribute it to the run in flight.
+				progFile := filepath.Join(sc.dir, fmt.Sprintf("progress.%d", i))
+				if f := diedMinimising(progFile, j.race); f != nil {
+					crashes[i] = f
+					results[i] = workerResult{Counts: map[string]int64{}}
+					return
+				}
 				if sig := crashSignature(e.String()); sig != "" {
-					if pb, perr := os.ReadFile(filepath.Join(sc.dir, fmt.Sprintf("progress.%d", i))); perr == nil && len(pb) == 8 {
+					if pb, perr := os.ReadFile(progFile); perr == nil && len(pb) >= 8 {
 						var run int64
 						for k := 0; k < 8; k++ {
 							run |= int64(pb[k]) << (8 * k)
@@ -808,6 +819,30 @@ func minimiseRace(sc *scratch, id, file, sig, detail string) (string, string) {
 		return file, detail
 	}
 	return dst, curDetail
+}
+
+// diedMinimising returns the violation a worker had already found and written
+// out (unminimised) when it died or stalled while minimising it.
+func diedMinimising(progFile string, race bool) *found {
+	pb, err := os.ReadFile(progFile)
+	if err != nil || len(pb) < 9 || pb[8] != 2 {
+		return nil
+	}
+	up, err := os.ReadFile(progFile + ".unmin")
+	if err != nil {
+		return nil
+	}
+	var meta struct {
+		Violation struct {
+			Signature string `json:"signature"`
+			Detail    string `json:"detail"`
+		} `json:"violation"`
+	}
+	rb, err := os.ReadFile(string(up))
+	if err != nil || json.Unmarshal(rb, &meta) != nil {
+		return nil
+	}
+	return &found{Signature: meta.Violation.Signature, Detail: meta.Violation.Detail + " (unminimised: the worker died or stalled while minimising)", Replay: string(up), race: race}
 }
 
 // hangs re-executes a replay file alone and reports whether it fails to finish
